@@ -65,14 +65,21 @@ class AddConditionTransformation(ConditionTransformation):
             else:
                 conditions = self.conditions
 
-            rule.detection.detections[self.name] = SigmaDetection.from_definition(conditions)
-            self.processing_item_applied(rule.detection.detections[self.name])
+            # The added detection must not replace a detection of the rule with the same name.
+            self._applied_name = self.name
+            while self._applied_name in rule.detection.detections:
+                self._applied_name = "_cond_" + (
+                    "".join(random.choices(string.ascii_lowercase, k=10))
+                )
+            rule.detection.detections[self._applied_name] = SigmaDetection.from_definition(
+                conditions
+            )
+            self.processing_item_applied(rule.detection.detections[self._applied_name])
             super().apply(rule)
 
     def apply_condition(self, cond: SigmaCondition) -> None:
+        name = getattr(self, "_applied_name", self.name)
         if cond.condition:  # If condition is not empty
-            cond.condition = (
-                "not " if self.negated else ""
-            ) + f"{self.name} and ({cond.condition})"
+            cond.condition = ("not " if self.negated else "") + f"{name} and ({cond.condition})"
         else:  # If condition is empty, just use the added condition name
-            cond.condition = ("not " if self.negated else "") + self.name
+            cond.condition = ("not " if self.negated else "") + name
